@@ -19,6 +19,7 @@ import (
 	"sync"
 	"time"
 
+	fdcfg "github.com/ozontech/file.d/cfg"
 	"github.com/ozontech/file.d/pipeline"
 	fileout "github.com/ozontech/file.d/plugin/output/file"
 	"github.com/ozontech/file.d/test"
@@ -31,6 +32,7 @@ type row struct {
 	avg, batch int  // AvgEventSize of the pipeline, batch_size of the plugin: threshold = avg*batch bytes
 	gzip, two  bool // use_gzip, two endpoints (es / http; splunk has one endpoint)
 	rotate     bool // file only: retention_interval of a few ms, the file is sealed up between batches
+	restart    bool // file only: rotate (30 ms), and the plugin is stopped and started again on the same directory before every second batch
 }
 
 // row 0 is the configuration every older stream uses (threshold 65536 bytes)
@@ -68,8 +70,11 @@ func splitWhich(which int) (kind int, rw row, fresh, dig bool) {
 	if kind == 1 {
 		// file never assigns avgEventSize (its threshold is 0 whatever the settings are): the rows mean
 		// nothing to it, row 1 selects the rotating sink instead, which always is a fresh instance
-		rw = row{avg: rows[0].avg, batch: rows[0].batch, rotate: v&7 == 1}
+		rw = row{avg: rows[0].avg, batch: rows[0].batch, rotate: v&7 == 1 || v&7 == 2, restart: v&7 == 2}
 		fresh = fresh || rw.rotate
+	}
+	if kind == 11 {
+		rw = rows[0] // the via drive of file: no rows either
 	}
 	return
 }
@@ -126,22 +131,47 @@ var (
 
 const rotateEvery = 6 * time.Millisecond
 
-func rotatingFileSink(name, dir string) *sink {
-	c := &fileout.Config{TargetFile: filepath.Join(dir, "out.log"), RetentionInterval: "4ms", BatchSize: "16", WorkersCount: "1"}
-	test.NewConfig(c, map[string]int{"gomaxprocs": 1, "capacity": 64})
-	p := &fileout.Plugin{}
-	p.SealUpCallback = func(string) {
-		sealMu.Lock()
-		sealUps++
-		sealMu.Unlock()
+// restart: before the 3rd, 5th, ... batch the plugin is stopped and a new instance is started on the same
+// directory, as file.d does when it is restarted: Start() finds the sealed files (getStartIdx goes on after
+// the highest index) and the current file (createNew opens the one file that matches the pattern and appends
+// to it). What the batches wrote must still be the growth of sealed files ++ current file. The retention
+// interval is 30 ms here: an instance seals its first write at once (its first seal-up time is derived from
+// the SECOND in the file name, so it lies in the past) and keeps the second one in the current file, which
+// therefore is NOT empty when the next instance opens it (a Start() that truncates it loses that batch).
+var fileRestarts int
+
+func rotatingFileSink(name, dir string, restart bool) *sink {
+	var p *fileout.Plugin
+	retention := "4ms"
+	if restart {
+		retention = "30ms"
 	}
-	p.Start(c, params(name, rows[0].avg))
+	start := func() {
+		c := &fileout.Config{TargetFile: filepath.Join(dir, "out.log"), RetentionInterval: fdcfg.Duration(retention), BatchSize: "16", WorkersCount: "1"}
+		test.NewConfig(c, map[string]int{"gomaxprocs": 1, "capacity": 64})
+		p = &fileout.Plugin{}
+		p.SealUpCallback = func(string) {
+			sealMu.Lock()
+			sealUps++
+			sealMu.Unlock()
+		}
+		p.Start(c, params(name, rows[0].avg))
+	}
+	start()
 	wd := pipeline.WorkerData(nil)
 	var seen []byte
+	calls := 0
 	return &sink{
 		wait: rotateEvery,
 		stop: func() { p.Stop(); time.Sleep(time.Millisecond); _ = os.RemoveAll(dir) },
 		out: func(b *pipeline.Batch) error {
+			if calls++; restart && calls > 1 && calls%2 == 1 {
+				p.Stop()
+				time.Sleep(2 * time.Millisecond) // the stopped instance's seal-up ticker has returned
+				start()
+				wd = pipeline.WorkerData(nil)
+				fileRestarts++
+			}
 			p.VerifOut(&wd, b)
 			total := readRotated(dir)
 			if bytes.HasPrefix(total, seen) {
